@@ -102,6 +102,13 @@ def run_tlc(module, cfg, workdir, env=None, workers=None, simulate=None, depth=N
     return TlcResult(out, rc, time.time() - t0)
 
 
+def definition_text(module, name):
+    """the text of operator `name` in SPEC/<module>.tla up to the next blank line, white space normalised"""
+    s = open(os.path.join(SPEC, module + ".tla")).read()
+    m = re.search(r"^%s\(.*?==.*?(?=\n\s*\n)" % re.escape(name), s, re.S | re.M)
+    return " ".join(m.group(0).split()) if m else None
+
+
 def run_tlapm(module, workdir, timeout=900):
     """check the proofs of SPEC/<module>.tla with the TLA+ proof system (tlapm); returns (obligations proved, all proved, output)"""
     d = os.path.join(workdir, "tlapm-%s-%d" % (module, os.getpid()))
@@ -170,6 +177,19 @@ class Ctx:
             tail = "\n".join(r.out.splitlines()[-60:])
             raise MachineryError("TLC run of %s/%s did not pass:\n%s" % (module, cfg, tail))
         return r
+
+    def prove(self, module, what):
+        """re-check the TLAPS proofs of SPEC/<module>.tla (unbounded counterparts of theorems TLC checks for small constants)"""
+        proofs = self.notes.setdefault("tlaps_proofs", {})
+        if module in proofs:
+            return
+        n, ok, out = run_tlapm(module, self.workdir)
+        if "TLAPM-NOT-INSTALLED" in out:
+            proofs[module] = "tlapm not available: not re-checked in this run"
+            return
+        if not ok:
+            raise MachineryError("tlapm does not prove spec/%s.tla:\n%s" % (module, "\n".join(out.splitlines()[-30:])))
+        proofs[module] = "tlapm: all %d obligations proved (%s)" % (n, what)
 
     def validate(self, module, traces, cfg=None, shards=None, env=None, timeout=3600, workers=1):
         """Send recorded traces through the total monitor `module`; returns {id: verdict dict}.
